@@ -2,7 +2,7 @@
    counterpart; when one fails the model answers EInternal, which can never match the implementation's outcome, so a
    disagreement is reported).  Their soundness w.r.t. declarative statements is proved in BuildFacts.v.  No proofs here. *)
 From Coq Require Import List String NArith Arith Bool.
-From Spox Require Import Base IR Show Build.
+From Spox Require Import Base IR Show Build Sem Plan.
 Import ListNotations.
 Open Scope string_scope.
 
@@ -119,7 +119,7 @@ Definition validators (p : prog) (r : request) (m : model) : bool :=
   | Some inputs, Some outputs =>
     let p' := with_main p (Some (map snd inputs)) outputs in
     global_unique (mmain m) && node_names_unique (mmain m) && imports_unique m &&
-    emitted_once p' (mmain m) && placed p' (mmain m) &&
+    emitted_once p' (mmain m) && placed p' (mmain m) && check_plan p' (mmain m) &&
     io_exact p' inputs outputs (r_drop r) (depends_on p' 0) (mmain m)
   | _, _ => false end.
 
